@@ -51,6 +51,10 @@ CHECKS = {
             "Runtime monitor: (A) hijack/name-reuse cross product on a real node with conflict-delegate recording; (B) Leave scenarios on real clusters with a transport tap that looks for the departure packet and captures the leaver's older alive messages for later re-delivery, dumps/events of every peer at settle and final points; (C) the same with an accusation injected through the verif failpoint inside Leave (between reading the incarnation and applying the departure) - the only place where an injected delay, not workload diversity, is needed to reach the interleaving.",
             "Trusts the wire codec, the failpoint (runs harness code on Leave's goroutine without holding a memberlist lock), synctest.",
             "before/after oracle on injected claims + leave-finality monitor on tap/dumps/events + failpoint-forced interleaving", "DESIGN.md §3 C08"),
+    "C16": ("E2 (codec over simulated streams) + E2-rig", "exploration",
+            "Runtime monitor: label codec round trip for every label length 1..255 and hostile first bytes over four stream fragmentations and every header truncation; cross-label isolation on a real node: every message type on both paths carrying no / equal / prefix / extension / other label headers (sealed with either label as associated data), with SkipInboundLabelCheck on/off; the effect oracle covers acks, nacks, relays, delegate calls, membership, events, self-refutation, stream reply bytes and any transmission. A positive control (right label => every effect present) keeps the absence oracle from being blind.",
+            "Trusts the simulated connection (ordered byte stream, fragmentation as configured), the wire codec.",
+            "round-trip property monitor + effect-equals-empty oracle with positive control", "DESIGN.md §3 C16"),
 }
 
 NOT_YET = "check not built yet in this round (design in DESIGN.md §3); not claimed until its monitor runs clean on the unchanged tree"
@@ -87,7 +91,7 @@ def main():
         },
         "engines": [
             {"name": "E1-simnet", "path": "harness/simnet.go", "serves_properties": ["C02", "C03", "C04", "C05", "C07", "C08", "C17"], "kind_free_text": "real Memberlist instances on an in-memory transport inside a testing/synctest bubble (virtual time), with wire tap, fault scripts and fake peers"},
-            {"name": "E2-model-lockstep", "path": "harness/", "serves_properties": ["C01", "C02", "C06", "C10", "C17", "C18"], "kind_free_text": "PRNG operation sequences against one object with an executable reference model evaluated in lock-step"},
+            {"name": "E2-model-lockstep", "path": "harness/", "serves_properties": ["C01", "C02", "C06", "C08", "C10", "C16", "C17", "C18"], "kind_free_text": "PRNG operation sequences against one object with an executable reference model evaluated in lock-step"},
         ],
         "checks": checks,
         "not_applicable": [{"property_id": p, "reason": NOT_YET} for p in ALL if p not in CHECKS],
